@@ -72,7 +72,20 @@ func (f *frame) doCall(v *ssa.Call, st *State, reach string) {
 	}
 	callee := com.StaticCallee()
 	if callee != nil && f.ctr != nil {
+		if f.callOrd == nil {
+			f.callOrd = map[string]int{}
+		}
+		f.callOrd[callee.Name()]++
 		for suffix, asserts := range f.ctr.CallAsserts {
+			// "callee#k" selects the k-th call of callee in the body (source order of go/ssa emission)
+			want := 0
+			if i := strings.LastIndex(suffix, "#"); i > 0 {
+				fmt.Sscan(suffix[i+1:], &want)
+				suffix = suffix[:i]
+			}
+			if want != 0 && want != f.callOrd[callee.Name()] {
+				continue
+			}
 			if shortFn(callee) == suffix || callee.Name() == suffix || strings.HasSuffix(callee.String(), "."+suffix) {
 				env := map[string]Val{}
 				for i, a := range com.Args {
@@ -753,7 +766,7 @@ func (f *frame) doBuiltin(v *ssa.Call, b *ssa.Builtin, st *State, reach string) 
 		case *types.Slice, *types.Basic:
 			f.vals[v] = Val{term: fmt.Sprintf("(s_len %s)", x.term), typ: v.Type()}
 		case *types.Map:
-			r := Val{term: e.declare("maplen", e.idxSort()), typ: v.Type()}
+			r := Val{term: e.define(v.Name(), e.idxSort(), e.mapLen(st, x.term)), typ: v.Type()}
 			e.assume(reach, e.idxLe(e.idxLit(0), r.term))
 			if e.sc.arith == "bv" {
 				e.assume(reach, e.idxLe(r.term, bvLit(maxLen, 64)))
@@ -900,8 +913,15 @@ func (f *frame) doBuiltin(v *ssa.Call, b *ssa.Builtin, st *State, reach string) 
 				i, e.idxSort(), nc, i, in, e.sc.zero(sl.Elem()), h, x.term, i, nc, i))
 			st.heaps[hn] = e.define(hn, hs, fmt.Sprintf("(store %s (s_base %s) %s)", h, x.term, nc))
 		}
-		// maps are opaque
-	case "delete", "print", "println":
+		if _, ok := x.typ.Underlying().(*types.Map); ok {
+			e.setMapLen(st, x.term, e.idxLit(0))
+		}
+	case "delete":
+		m := f.val(args[0])
+		n := e.declare("maplen", e.idxSort())
+		e.assume(reach, fmt.Sprintf("(and %s %s)", e.idxLe(e.idxLit(0), n), e.idxLe(n, e.mapLen(st, m.term))))
+		e.setMapLen(st, m.term, n)
+	case "print", "println":
 	case "ssa:wrapnilchk":
 		x := f.val(args[0])
 		f.vals[v] = x
